@@ -93,4 +93,10 @@ example : ¬ ((expandTermAliasH growDouble witness []).1.map (·.arr)).Nodup := 
     is not true for the trivial reason that every append copies -/
 example : (appendG growDouble (alloc [] [] 2).2 (alloc [] [] 2).1 [A]).1.arr = 0 := by decide
 
+/-- alternatives are NOT always full: after `(A AND B) AND C` the one alternative has length 3 in an array of capacity 4
+    (so "append always copies" — the premise of every re-introduction of the defect, seeds C01-w10m1 / C06-w10m1 — is false,
+    and separation, not fullness, is the invariant that makes the code right) -/
+example : (let p := expandTermH growDouble (.and (.and A B) C) []; p.1.map (fun s => (s.len, capOf p.2 s.arr))) = [(3, 4)] := by
+  decide
+
 end Spdx.C01
